@@ -84,13 +84,17 @@ def jReturned (st : List (List Rat) → Json) : Except Err (Returned Json) → J
   | .ok r => jObj [("names", jList jName r.names), ("img", jList (jList (jList id)) r.img),
                    ("params", match r.params with
                      | none => Json.null
-                     | some t => jObj [("times", jTimes t), ("scantime", st t)])]
+                     | some t => jObj [("times", jTimes t), ("scantime", st t)]),
+                   ("time_field", match r.timeField with
+                     | none => Json.null
+                     | some t => jTimes t)]
 
 /-- one call of an entry point: the function and the options the caller passes (`null` = omitted) -/
 def parseCall (j : Json) : R (String × CallOpts) := do
   pure (← getStr j "fn",
         { methods := ← getOptField (asList parseMethod) j "methods", cps := ← getOptField asBool j "cps",
-          useAcq := ← getOptField asBool j "use_acq", full := ← getOptField asBool j "full" })
+          useAcq := ← getOptField asBool j "use_acq", full := ← getOptField asBool j "full",
+          drop := ← getOptField (asList asName) j "drop" })
 
 def handle (op : String) (req : Json) : R Json := do
   match op with
